@@ -1285,3 +1285,55 @@ def history_independence(pid, cases, seed, shape=(3, 8, 2), pos=1):
                 key = "%s:result-depends-on-earlier-calls:%s" % (pid, name)
                 fails.append({"key": key, "clause": key, "ops": [{"function": name, "after": name2, "parts": bad}]}); break
     return fails, n_eval
+
+
+# ------------------------------------------------------------------ the container / number type of an argument must not matter
+def argform_independence(pid, cases, seed, shape=(3, 8, 2), pos=1):
+    """`cases`: (name, dimname, [(form label, fn(d, dimname) -> DNPData | dict)…]) — the FIRST form is the reference; every other
+    form passes the same argument values in another container or number type (tuple / list / ndarray, Python int / float / NumPy
+    scalar, bool / numpy.bool_ / 0-1).  A form that raises is not judged; one that returns must agree with the reference."""
+    import warnings
+    rng = random.Random(seed * 7919 + 4545)
+    fails, n_eval = [], 0
+    for name, dimname, forms in cases:
+        shp = list(shape); n = shp[pos]
+        names = ["Average", "x2", "y3"]; names[pos] = dimname
+        vals = np.array([rng.randint(-9, 9) + 0.5 * rng.randint(0, 1) for _ in range(int(np.prod(shp)))], dtype=float).reshape(shp)
+        vals = vals + 1j * np.roll(vals, 3)
+
+        def mk():
+            cs = [np.arange(m, dtype=float) for m in shp]; cs[pos] = np.arange(n, dtype=float) * 2.0
+            return dnp.DNPData(vals.copy(), list(names), cs, attrs={"nmr_frequency": 400.0e6}, dnplab_attrs={"frequency": 400.0e6})
+
+        def call(fn):
+            with warnings.catch_warnings():
+                warnings.simplefilter("ignore")
+                with np.errstate(all="ignore"):
+                    r = fn(mk(), dimname)
+            return {"": r} if isinstance(r, dnp.DNPData) else ({k: v for k, v in r.items() if isinstance(v, dnp.DNPData)} if isinstance(r, dict) else {})
+        try:
+            ref = {k: deep_snap(v) for k, v in call(forms[0][1]).items()}
+        except Exception:  # noqa: BLE001
+            continue
+        for label, fn in forms[1:]:
+            n_eval += 1
+            try:
+                got = call(fn)
+            except Exception:  # noqa: BLE001
+                continue
+            def differs(sn, g):
+                # by VALUE (an integer grid handed over gives an integer coordinate array: the same numbers)
+                if list(sn["dims"]) != list(g.dims) or np.shape(sn["values"]) != np.shape(g.values):
+                    return True
+                if not np.allclose(np.asarray(g.values, dtype=complex), np.asarray(sn["values"], dtype=complex), rtol=1e-12, atol=1e-12, equal_nan=True):
+                    return True
+                for c0, dm in zip(sn["coords"], g.dims):
+                    c1 = np.asarray(g.coords[dm], dtype=float)
+                    if c1.shape != np.shape(c0) or not np.allclose(c1, np.asarray(c0, dtype=float), rtol=1e-12, atol=1e-12):
+                        return True
+                return False
+            bad = [k for k, sn in ref.items() if k not in got or differs(sn, got[k])]
+            if bad:
+                key = "%s:result-depends-on-argument-form:%s:%s" % (pid, name, label)
+                fails.append({"key": key, "clause": key, "ops": [{"function": name, "form": label, "reference_form": forms[0][0]}]})
+    return fails, n_eval
